@@ -1,3 +1,3 @@
-CONSTANTS Part = "all" MaxMult = 3 Rich = TRUE Check = FALSE
+CONSTANTS Part = "all" MaxMult = 4 Rich = TRUE
 SPECIFICATION Spec
 CHECK_DEADLOCK FALSE
